@@ -738,8 +738,13 @@ type dState struct {
 	crashes uint8
 	part    uint8 // bitmask of validators on side A; 0 = no partition
 	bag     bagSet
-	allow   [4]uint64 // per node: released Byzantine menu entries (index into menu)
+	allow   [4]allowSet // per node: released Byzantine menu entries (index into menu)
 }
+
+type allowSet [2]uint64
+
+func (a *allowSet) has(i int) bool { return a[i/64]&(1<<(uint(i)%64)) != 0 }
+func (a *allowSet) add(i int)      { a[i/64] |= 1 << (uint(i) % 64) }
 
 type dAction struct {
 	kind string // "ev" | "part" | "release"
@@ -760,7 +765,7 @@ type devCfg struct {
 	maxStates  int
 	reorder    bool
 	crashInside bool // deviation: crash inside the default next step, before each of its effects
-	preAllow   uint64    // Byzantine strategy: menu entries released to every node from the start
+	preAllow   allowSet  // Byzantine strategy: menu entries released to every node from the start
 	prefix     []dAction // base schedule applied before the search starts (cost 0)
 }
 
@@ -778,7 +783,7 @@ func (x *explorer) signerSide(part uint8, v int) bool { return part&(1<<uint(v))
 
 func (x *explorer) deliverable(s *dState, i int, m int32, menuIdx map[int32]int) bool {
 	if mi, ok := menuIdx[m]; ok {
-		return s.allow[i]&(1<<uint(mi)) != 0
+		return s.allow[i].has(mi)
 	}
 	if !s.bag.has(m) {
 		return false
@@ -817,7 +822,7 @@ func (x *explorer) searchDev(cfg devCfg) *devResult {
 	for i, m := range cfg.menu {
 		menuIdx[m] = i
 	}
-	if len(cfg.menu) > 64 {
+	if len(cfg.menu) > 128 {
 		panic("menu too large")
 	}
 	var s0 dState
@@ -903,11 +908,10 @@ func (x *explorer) searchDev(cfg devCfg) *devResult {
 			s.part = a.part
 			return s, true
 		case "release":
-			bit := uint64(1) << uint(a.menu)
 			changed := false
 			for _, i := range x.correct {
-				if (a.to < 0 || a.to == i) && s.allow[i]&bit == 0 {
-					s.allow[i] |= bit
+				if (a.to < 0 || a.to == i) && !s.allow[i].has(a.menu) {
+					s.allow[i].add(a.menu)
 					changed = true
 				}
 			}
